@@ -2,4 +2,8 @@
 
 package keystore
 
+import "gitlab.com/aquachain/aquachain/common"
+
 func verifSigned(site int) {}
+
+func verifExpire(addr common.Address, u *unlocked) {}
